@@ -816,10 +816,13 @@ PROPS = {
              "transports, real direct forwarder, loopback TCP and UDP servers) under tokio's paused clock; after every event the five "
              "series are read from the text Metrics::collect produces; for a third of the histories the real metrics listener is bound "
              "to a loopback port and GET /metrics, /health-check and another path are issued over TCP at the end; one run lists the "
-             "exported families, types and label names/values against METRICS.md",
+             "exported families, types and label names/values against METRICS.md"
+             " When raw sockets are permitted the histories also open ICMP multiplexer tunnels and send echo requests to "
+             "127.0.0.1 (answered by the kernel: counted both ways with their on-the-wire length) and to an IPv6 peer with IPv6 "
+             "switched off (dropped by the forwarder: counted nowhere); origin half-closes are part of the histories",
         explanation="theorems cells_equal_objects, gauges_nonneg, all_clients_gone_sessions_udp_zero, all_clients_gone_everything_zero, "
                     "refused_connect_balanced, hanging_connect_released_by_timeout, counters_monotone, up_adds_exactly, "
-                    "down_adds_exactly, no_relay_no_bytes, half_closed_tunnel_released_when_both_ended, udp_bytes_follow_multiplexer, documented_series, documented_paths about "
+                    "down_adds_exactly, no_relay_no_bytes, half_closed_tunnel_released_when_both_ended, icmp_counts_only_relayed, udp_bytes_follow_multiplexer, documented_series, documented_paths about "
                     "TT/Model/Metrics.lean (which embeds TT/Model/UdpFlows.lean) and the table regenerated from METRICS.md",
         trusted=["which exported series the client->peer bytes feed is calibrated at the start of every run (3 bytes up, 5 down) and "
                  "then required to be the same everywhere: the property does not fix the orientation (the code feeds "
@@ -828,7 +831,8 @@ PROPS = {
                  "and UDP expiry are exact",
                  "client_sessions counts tunnel sessions (Core::on_tunnel_request); ping / speedtest / reverse-proxy connections hold "
                  "no guard in the code and are not driven here",
-                 "HTTP/3 sessions, the SOCKS5 forwarder and the ICMP multiplexer are not driven",
+                 "HTTP/3 sessions and the SOCKS5 forwarder's TCP path are not driven (its UDP multiplexer is, by C07's SOCKS5 suite); ICMP "
+                 "traffic only where raw sockets are permitted",
                  "prometheus crate text encoding; Linux loopback TCP (origin sockets use TCP_NODELAY) and a full accept queue to make a "
                  "connect hang"],
         assumptions=["an origin connection whose client vanished lingers until the endpoint next writes to the client or the tunnel "
